@@ -8,48 +8,6 @@ From Mamba Require Import Canon.Perm Canon.Iso Canon.Model Canon.Refine Canon.So
 Import ListNotations.
 Open Scope nat_scope.
 
-Section VCV.
-Variable g : graph.
-Variables n m : nat.
-Variable clsf : nat -> nat.
-Variable order0 : list nat.
-Variable root : part.
-Hypothesis Hg : simple g.
-Hypothesis Hn : length g = n.
-Hypothesis Hm : m = num_edges g.
-Hypothesis Hm0 : 0 < m.
-
-Notation Xc := (Kc clsf order0).
-Notation node_ok := (node_ok g n root Xc).
-Notation cur_ok := (cur_ok n Xc).
-Notation stack_ok := (stack_ok g n root Xc).
-Notation TPstep := (TPstep g n root Xc).
-Notation TPtop := (TPtop g n root Xc).
-Notation TPj := (TPj g n root Xc).
-Notation TPref := (TPref g n root Xc).
-Notation cb_ok := (cb_ok g n root).
-Notation recs := (recs g n m clsf order0).
-Notation vst := (vst g n).
-Notation cclean := (cclean g n).
-Notation uinv := (uinv g n).
-Notation cinv := (cinv g n).
-Notation vinv := (vinv g n).
-Notation clean := (clean g n).
-
-Definition VPstep (st : sstate) : Prop :=
-  TPstep st /\ vst st /\ recs st /\
-  (s_cb st = [] -> s_path st <> [] /\ s_skip st = true /\ forall top, last_opt (s_path st) = Some top -> 1 <= top).
-
-Definition VPtop (st : sstate) (w : bool) : Prop :=
-  TPtop st w /\ vst st /\ recs st /\ (w = false -> cclean st) /\ (s_cb st = [] -> w = false).
-
-Definition VPj (st : sstate) (j : nat) : Prop :=
-  TPj st j /\ vst st /\ recs st /\ (s_cb st = [] -> 1 <= j /\ s_skip st = true).
-
-Definition VPref (st : sstate) : Prop := TPref st /\ vst st /\ recs st /\ cclean st.
-
-Definition VPdone (st : sstate) : Prop := cb_ok st /\ recs st /\ s_cb st <> [].
-
 (* ---------------------------------------------------------------- the bin that was split *)
 
 Lemma fns_lower : forall cs b, (forall k, k <= b -> exists c, nth_error cs k = Some c /\ single c) -> b < fns cs.
@@ -98,6 +56,49 @@ Proof.
   intros L child child' P H HA HV. rewrite (fage_child _ _ _ H HA).
   apply (fage_child L child' P); [|exact HA]. eapply child_of_V; eassumption.
 Qed.
+
+
+Section VCV.
+Variable g : graph.
+Variables n m : nat.
+Variable clsf : nat -> nat.
+Variable order0 : list nat.
+Variable root : part.
+Hypothesis Hg : simple g.
+Hypothesis Hn : length g = n.
+Hypothesis Hm : m = num_edges g.
+Hypothesis Hm0 : 0 < m.
+
+Notation Xc := (Kc clsf order0).
+Notation node_ok := (node_ok g n root Xc).
+Notation cur_ok := (cur_ok n Xc).
+Notation stack_ok := (stack_ok g n root Xc).
+Notation TPstep := (TPstep g n root Xc).
+Notation TPtop := (TPtop g n root Xc).
+Notation TPj := (TPj g n root Xc).
+Notation TPref := (TPref g n root Xc).
+Notation cb_ok := (cb_ok g n root).
+Notation recs := (recs g n m clsf order0).
+Notation vst := (vst g n).
+Notation cclean := (cclean g n).
+Notation uinv := (uinv g n).
+Notation cinv := (cinv g n).
+Notation vinv := (vinv g n).
+Notation clean := (clean g n).
+
+Definition VPstep (st : sstate) : Prop :=
+  TPstep st /\ vst st /\ recs st /\
+  (s_cb st = [] -> s_path st <> [] /\ s_skip st = true /\ forall top, last_opt (s_path st) = Some top -> 1 <= top).
+
+Definition VPtop (st : sstate) (w : bool) : Prop :=
+  TPtop st w /\ vst st /\ recs st /\ (w = false -> cclean st) /\ (s_cb st = [] -> w = false).
+
+Definition VPj (st : sstate) (j : nat) : Prop :=
+  TPj st j /\ vst st /\ recs st /\ (s_cb st = [] -> 1 <= j /\ s_skip st = true).
+
+Definition VPref (st : sstate) : Prop := TPref st /\ vst st /\ recs st /\ cclean st.
+
+Definition VPdone (st : sstate) : Prop := cb_ok st /\ recs st /\ s_cb st <> [].
 
 (* ---------------------------------------------------------------- easy conditions *)
 
